@@ -345,6 +345,40 @@ func exprOperandForms() []form {
 	}
 }
 
+// nonASCIIForms: variable names and map keys beyond ASCII - Cyrillic, CJK, precomposed and
+// decomposed accents, emoji keys, hyphenated keys with non-ASCII letters in dotted and bracket
+// spelling - and a comparison with a multi-byte literal.
+func nonASCIIForms() []form {
+	top := func(name, key string) form {
+		return form{name: "non-ASCII " + name, path: key, data: func(v any, miss bool) map[string]any { return mapWith(key, v, miss) }}
+	}
+	in := func(name, path, m, key string) form {
+		return form{name: "non-ASCII " + name, path: path, data: func(v any, miss bool) map[string]any {
+			return map[string]any{m: mapWith(key, v, miss)}
+		}}
+	}
+	return []form{
+		top("Cyrillic variable", "включено"),
+		top("CJK variable", "有効"),
+		top("precomposed accent variable", "activé"),
+		in("Cyrillic map key (dotted)", "данные.ключ", "данные", "ключ"),
+		in("Cyrillic map key (bracket)", "данные['ключ']", "данные", "ключ"),
+		in("decomposed accent key", "user.bloque\u0301", "user", "bloque\u0301"),
+		in("emoji key", "flags.🔥", "flags", "🔥"),
+		in("emoji key (bracket)", "flags['🔥']", "flags", "🔥"),
+		in("hyphenated key with Cyrillic letters (dotted)", "user.vip-клиент", "user", "vip-клиент"),
+		in("hyphenated key with Cyrillic letters (bracket)", "user['vip-клиент']", "user", "vip-клиент"),
+		{name: "non-ASCII comparison with a multi-byte literal", path: "ответ == 'да'", neg: "!(ответ == 'да')",
+			skip: func(v vals.V) bool { return v.K != "bool" },
+			data: func(v any, _ bool) map[string]any {
+				if v == true {
+					return map[string]any{"ответ": "да"}
+				}
+				return map[string]any{"ответ": "нет"}
+			}},
+	}
+}
+
 // builtinNames are data keys that are also built-in functions of the expression library and / or
 // registered template functions: as data keys they are ordinary names (docs/expressions.md uses
 // count, docs/funcmap.md len / title / type as functions).
@@ -527,6 +561,7 @@ func allForms() []form {
 	out = append(out, promotedForms()...)
 	out = append(out, rootStructForms()...)
 	out = append(out, funcNameForms()...)
+	out = append(out, nonASCIIForms()...)
 	out = append(out, exprOperandForms()...)
 	out = append(out, callForms()...)
 	return append(out, cmpForms()...)
